@@ -36,8 +36,8 @@ func sqlTokenize(s string) []sqlTok {
 	isAl := func(b byte) bool { return b == '_' || b == '$' || 'a' <= b && b <= 'z' || 'A' <= b && b <= 'Z' }
 	isDig := func(b byte) bool { return '0' <= b && b <= '9' }
 	add := func(kind, text string, start, end int) {
-		lead := start == 0 || isSpace(s[start-1])
-		trail := end == len(s) || isSpace(s[end])
+		lead := start > 0 && isSpace(s[start-1])
+		trail := end < len(s) && isSpace(s[end])
 		out = append(out, sqlTok{Kind: kind, Text: text, Lead: lead, Trail: trail})
 	}
 	for i < len(s) {
